@@ -133,14 +133,14 @@ def main():
             transitions.append(hi)
             prev = cur
         t += step
-    kinds = ['naive', 'utc', 'offset', 'struct_time']
+    kinds = ['naive', 'utc', 'offset', 'struct_time', 'nulltz']
     for i, tr in enumerate(transitions):
         for d in (-3601, -3600, -1, 0, 1, 3599, 3600, 3601):
             s = tr + d
             if 0 <= s <= 2**32 - 1:
                 res['dst_cases'] += 1
                 record({'tz': boot_tz, 'sec': s, 'micro': (i * 7919) % 1000000,
-                        'kind': kinds[(i + d) % 4], 'off': 330})
+                        'kind': kinds[(i + d) % 5], 'off': 330})
     # ---- 2. fixed seed-derived instant list; digest must agree across all children
     h = hashlib.blake2b(digest_size=16)
     for i in range(2000 if tier == 'quick' else 20000):
@@ -148,7 +148,7 @@ def main():
         sec = int.from_bytes(raw[:5], 'big') % 2**32
         case = {'tz': boot_tz, 'sec': sec,
                 'micro': int.from_bytes(raw[5:], 'big') % 1000000,
-                'kind': kinds[i % 4], 'off': (i * 37) % 2879 - 1439}
+                'kind': kinds[i % 5], 'off': (i * 37) % 2879 - 1439}
         r = record(case)
         if r is not None:
             h.update(r[0])
